@@ -173,19 +173,15 @@ theorem wrOf_print_sysline_nocolor (o : Opts) (m : SysMsg) (hc : o.color = false
     simp [print_sysline, print_sysline_, print_sysline_prependdate, print_sysline_prependfile,
       print_sysline_prependfile_prependdate, wrOf_flatMap, wrOf, wrOf_lineOps, decorated, optBytes]
 
-/-- the one variant that writes the datetime field first -/
-def fixedSwapped (o : Opts) : Bool := !o.color && o.file.isSome && o.date.isSome
-
-/-- accounting records: the fields once, then the record -/
+/-- accounting records: all 8 variants write the file field, the datetime field, then the record -/
 theorem wrOf_print_fixedstruct (o : Opts) (m : BufMsg) (h : m.beg ≤ m.fin) :
-    wrOf (print_fixedstruct o m) =
-      (if fixedSwapped o then optBytes o.date ++ optBytes o.file else optBytes o.file ++ optBytes o.date) ++ m.data := by
+    wrOf (print_fixedstruct o m) = optBytes o.file ++ optBytes o.date ++ m.data := by
   obtain ⟨c, f, d⟩ := o
   cases c <;> cases f <;> cases d <;>
     simp [print_fixedstruct, print_fixedstruct_, print_fixedstruct_prependdate, print_fixedstruct_prependfile,
       print_fixedstruct_prependfile_prependdate, print_fixedstruct_color, print_fixedstruct_prependdate_color,
       print_fixedstruct_prependfile_color, print_fixedstruct_prependfile_prependdate_color,
-      wrOf, wrOf_append, wrOf_hlBuf _ h, fixedSwapped, optBytes]
+      wrOf, wrOf_append, wrOf_hlBuf _ h, optBytes]
 
 def plainOpts (o : Opts) : Bool := o.file.isNone && o.date.isNone
 
